@@ -1,5 +1,5 @@
 --------------------------- MODULE MC_Parser_Trace ---------------------------
 (* Instance for batched trace validation: no alphabet, no bound that matters. *)
-EXTENDS Parser_Trace
+EXTENDS Parser_Trace, ModelTextConsts
 NoForms == {}
 =============================================================================
